@@ -668,6 +668,24 @@ def fam_discrete_delays_fixed():
                                                                  E('a0/li/x', 'a2/li/u', fp(), delay=dt * 2),
                                                                  E('a2/li/x', 'a0/li/u', fp(), delay=dt * 2)],
                                                      "three edges with one delay, a0 used twice, a1 never")))
+    def mk_ab(edges_fn, note):
+        fp = FP()
+        ops = {'li': op_leaky(fp), 'o1': op_two_inputs(fp)}
+        for o, v in (('li', 'u'), ('o1', 'u'), ('o1', 'w')):
+            ops[o].vars[v] = ('input', F(0))
+        nodes = {f"a{i}": NodeSpec(['li'], _node_overrides(fp, ops, ['li'])) for i in range(3)}
+        nodes.update({f"b{i}": NodeSpec(['o1'], _node_overrides(fp, ops, ['o1'])) for i in range(2)})
+        return ModelSpec('m', ops, nodes, edges_fn(fp), note=note)
+    out.append(("F9x:three-groups", mk_ab(lambda fp: [E('a0/li/x', 'a1/li/u', fp(), delay=dt * 3),
+                                                      E('a1/li/x', 'a2/li/u', fp(), delay=dt * 2),
+                                                      E('a2/li/x', 'a0/li/u', fp()),
+                                                      E('a2/li/x', 'b0/o1/u', fp(), delay=dt * 4),
+                                                      E('a0/li/x', 'b1/o1/u', fp(), delay=dt * 2),
+                                                      E('a1/li/x', 'b1/o1/w', fp(), delay=dt * 3),
+                                                      E('b0/o1/x', 'a0/li/u', fp()),
+                                                      E('b1/o1/x', 'a2/li/u', fp(), delay=dt * 2)],
+                                          "three edge groups leave one vectorized variable: delayed to its own type, "
+                                          "undelayed to its own type, delayed to another type")))
     out.append(("F9x:rounding", mk(lambda fp: [E('a0/li/x', 'a1/li/u', fp(), delay=dt * F(12, 5)),
                                                E('a1/li/x', 'a2/li/u', fp(), delay=dt * F(13, 5))], "d/dt = 2.4 and 2.6")))
     return out
@@ -821,6 +839,26 @@ def fam_dde(seed=0, n=10):
             edges.append(EdgeSpec('n1/li/x', 'n2/li/u', fp(), delay=rnd.choice([F(1), F(3, 4), F(3, 2)])))
             edges.append(EdgeSpec('n2/li/x', 'n1/li/u', fp(), delay=rnd.choice([F(1, 2), F(1), F(2)])))
         out.append((f"F10:{seed}:{k}:{notation}:v{variant}", ModelSpec('m', ops, nodes, edges, note="DDE model")))
+    return out
+
+
+def fam_dde_equal_delays():
+    """C10: two delay parameters of one variable that have the same declared value (they stay two parameters: the
+    compiled function may be called with other values).  returns key -> (spec, spec with tau2 changed, {arg suffix: value})"""
+    import copy
+    out = []
+    for notation in ('past', 'call'):
+        fp = FP()
+        d = F(3, 4)
+        e1 = X.sub(X.mul(X.neg(V('k')), X.past('x', V('tau'))), X.mul(V('g'), X.past('x', V('tau2'))))
+        e2 = X.sub(X.past('x', V('tau2')), V('z'))
+        op = OpSpec('dd', [('x', 'de', e1), ('z', 'de', e2)],
+                    {'x': ('state', fp()), 'z': ('state', fp()), 'k': ('const', fp()), 'g': ('const', fp()),
+                     'tau': ('const', d), 'tau2': ('const', d)}, output='x', style={'past': notation})
+        spec = ModelSpec('m', {'dd': op}, {'p': NodeSpec(['dd'], {})}, [], note="equal-valued delay parameters")
+        s2 = copy.deepcopy(spec)
+        s2.nodes['p'].overrides[('dd', 'tau2')] = F(5, 4)
+        out.append((f"F10q:equal-delay-values:{notation}", (spec, s2, {'/dd/tau2': F(5, 4)})))
     return out
 
 
